@@ -219,7 +219,12 @@ def bystander(tree, seed):
                 c = tree.copy()
                 c.restore_ind_(rr.choice(live))
             elif k == 4 and live:
-                tree.unslice_rand(seed=rr.randrange(1 << 20))
+                if rr.random() < 0.5:
+                    tree.unslice_rand(seed=rr.randrange(1 << 20))
+                else:
+                    c = tree.copy()
+                    c.unslice_rand_(seed=rr.randrange(1 << 20))
+                    c.unslice_all_()
             elif free:
                 c = tree.copy()
                 ix = rr.choice(free)
@@ -368,7 +373,8 @@ def oracle(case, obs, net, tree):
     for i, key in enumerate(obs["keys"]):
         fixed = dict((a, b) for a, b in key)
         if live:
-            got = tree.contract_slice(arrays, i)
+            # execution options of the slice contraction (forwarded to contract_core): the section is the same
+            got = tree.contract_slice(arrays, i, **_slice_opts(case["seed"], i))
         else:
             got = tree.contract_core(arrays)
         slices.append(got)
@@ -428,7 +434,33 @@ def oracle(case, obs, net, tree):
             want_n *= len(ranges[ix])
         if len(chunks) != want_n or len(chunks) != obs["nchunks"]:
             return ("chunk-count", [len(chunks), want_n, obs["nchunks"]])
+        # the key-less form yields the same chunks in the same order; contraction options are forwarded
+        plain = list(tree.gen_output_chunks(arrays, **_slice_opts(case["seed"], 0)))
+        if len(plain) != len(chunks) or any(
+                np.asarray(a).shape != np.asarray(c).shape or not np.array_equal(np.asarray(a), np.asarray(c))
+                for a, (c, _) in zip(plain, chunks)):
+            return ("chunks-without-key-differ", None)
+        # slice_key with explicitly supplied strides (as contract_slice-style loops do) is the same key
+        strides = ctg.core.get_slice_strides(tree.sliced_inds)
+        for i in range(min(obs["nslices"], 64)):
+            if dict(tree.slice_key(i, strides=strides)) != dict(tree.slice_key(i)):
+                return ("slice_key-with-strides-differs", i)
     return None
+
+
+def _slice_opts(seed, i):
+    import random
+    rr = random.Random(seed * 1000003 + i)
+    if rr.random() < 0.6:
+        return {}
+    opts = {}
+    if rr.random() < 0.5:
+        opts["prefer_einsum"] = True
+    if rr.random() < 0.5:
+        opts["order"] = rr.choice(["dfs", "surface_order"]) if False else None
+    if rr.random() < 0.5:
+        opts["implementation"] = rr.choice(["cotengra", "autoray"])
+    return {k: v for k, v in opts.items() if v is not None}
 
 
 # --------------------------------------------------------------------------------------------
